@@ -524,7 +524,7 @@ func (w *World) applyLocked(c *Call, f Kind, choice, nparked int) result {
 		// the upload reads its payload now (see lazyPayload)
 		if fresh, err := io.ReadAll(c.lazy); err == nil {
 			if !bytes.Equal(fresh, c.Data) {
-				w.Probe("put-payload-changed-in-flight")
+				w.Stats.Probes["put-payload-changed-in-flight"]++ // (w.mu is held)
 			}
 			if fresh == nil {
 				fresh = []byte{}
